@@ -32,7 +32,13 @@ impl<S: FSpec> ToElements<S::B> for PubInputs<S> {
         };
         push64(&mut out, sp.tag);
         // every asserted value and every constraint coefficient is part of the statement
-        for a in sp.assertions.iter().chain(sp.aux_assertions.iter()) {
+        // (in a canonical order: the public inputs describe the statement, not the listing order of
+        // the assertions, so that C22's order-independence of the proof can be observed)
+        let mut main: Vec<&AssertSpec> = sp.assertions.iter().collect();
+        main.sort_by_key(|a| (a.column, a.first, a.stride));
+        let mut aux: Vec<&AssertSpec> = sp.aux_assertions.iter().collect();
+        aux.sort_by_key(|a| (a.column, a.first, a.stride));
+        for a in main.into_iter().chain(aux) {
             out.push(S::B::from(a.column as u32));
             out.push(S::B::from(a.first as u32));
             out.push(S::B::from(a.stride as u32));
@@ -40,7 +46,7 @@ impl<S: FSpec> ToElements<S::B> for PubInputs<S> {
                 out.push(S::from_int(*v % S::P));
             }
         }
-        push64(&mut out, sp.fingerprint());
+        push64(&mut out, sp.statement_fingerprint());
         out
     }
 }
